@@ -135,81 +135,85 @@ def scanSel : Str → Option (Str × Str)
 /-- `S.expect(dclose)` -/
 def expectClose (dclose : Char) (s : Str) : Except Err Str :=
   match s with
-  | c :: r => if c == dclose then pure r else throw .routeSyntaxError
-  | [] => throw .routeSyntaxError
+  | c :: r => if c == dclose then .ok r else .error .routeSyntaxError
+  | [] => .error .routeSyntaxError
 
 /-- the `if filter:` block of `_parse_param`: argument and selector syntax after the filter name -/
 def parseFilterTail (dclose : Char) (s : Str) : Except Err (Option Str × Option Str × Str) :=
   match s with
-  | [] => throw .typeError              -- `None in ':(>'`
+  | [] => .error .typeError              -- `None in ':(>'`
   | c :: r =>
-    if c == dclose then pure (none, none, s)
+    if c == dclose then .ok (none, none, s)
     else if c == '(' then
       match scanParen r 0 [] with
-      | none => throw .routeSyntaxError
+      | none => .error .routeSyntaxError
       | some (args, r') =>
-        match r' with
-        | '[' :: _ =>
+        if r'.head? == some '[' then
           match scanSel r' with
-          | some (sel, r'') => pure (some args, some sel, r'')
-          | none => throw .routeSyntaxError
-        | _ => pure (some args, none, r')
+          | some (sel, r'') => .ok (some args, some sel, r'')
+          | none => .error .routeSyntaxError
+        else .ok (some args, none, r')
     else if c == ':' then
       -- bottle style: `S.next(); filter_args = S.eat('[^>]+')`
-      let a := r.takeWhile (· != dclose)
-      pure (if a.isEmpty then none else some a, none, r.dropWhile (· != dclose))
-    else throw .routeSyntaxError
+      .ok (if (r.takeWhile (· != dclose)).isEmpty then none else some (r.takeWhile (· != dclose)), none,
+           r.dropWhile (· != dclose))
+    else .error .routeSyntaxError
+
+/-- `_parse_param` after the first name inside `<…>` / `{…}`: `(param, filter, rest)` -/
+def parseAfterName (dclose : Char) (bottle : Bool) (name : Str) (r1 : Str) :
+    Except Err (Option Str × Option Str × Str) :=
+  match r1 with
+  | [] => .error .routeSyntaxError
+  | c :: r1' =>
+    if c == dclose then .ok (if bottle then none else some name, if bottle then some name else none, r1)
+    else if c == '.' then
+      match pyName r1' with
+      | some (f, r2) => .ok (some name, some f, r2)
+      | none => .error .routeSyntaxError
+    else if c == ':' then
+      if bottle then .ok (none, some name, r1)
+      else
+        match pyName r1' with
+        | some (f, r2) => .ok (some name, some f, r2)
+        | none => .error .routeSyntaxError
+    else if c == '(' then .ok (none, some name, r1)
+    else .error .routeSyntaxError
+
+/-- `_parse_param`: filter arguments / selector (if there is a filter) and the closing delimiter -/
+def parseClose (dclose : Char) (param filter : Option Str) (r2 : Str) : Except Err (Part × Str) :=
+  match filter with
+  | none => (expectClose dclose r2).map fun r3 => ({ param := param }, r3)
+  | some f =>
+    match parseFilterTail dclose r2 with
+    | .error e => .error e
+    | .ok (args, sel, r3) =>
+      (expectClose dclose r3).map fun r4 => ({ param := param, filter := some f, args := args, sel := sel }, r4)
 
 /-- `Parser._parse_param` with `S.current` the first character of `s` (a param token).
 Returns the item and the rest of the rule. -/
 def parseParam (s : Str) : Except Err (Part × Str) :=
   match s with
-  | [] => throw .routeSyntaxError
-  | ':' :: r =>
-    match r with
-    | [] => pure ({}, [])
-    | _ =>
+  | [] => .error .routeSyntaxError
+  | first :: r =>
+    if first == ':' then
+      if r.isEmpty then .ok ({}, []) else
       -- `S.expect(r'([a-zA-Z_]\w*)?((?=/)|$)', group=1)`: a missing group is reported as no match
       match pyName r with
       | some (nm, r') =>
-        if r'.isEmpty || r' == ['\n'] || r'.head? == some '/' then pure ({ param := some nm }, r')
-        else throw .routeSyntaxError
-      | none => throw .routeSyntaxError
-  | first :: r =>
-    match closeOf first with
-    | none => throw .assertionError
-    | some dclose =>
-      let bottle := r.head? == some ':'
-      let r := if bottle then r.drop 1 else r
-      match pyName r with
-      | none => throw .routeSyntaxError
-      | some (name, r1) => do
-        let filter0 : Option Str := if bottle then some name else none
-        let (param, filter, r2) ← (match r1 with
-          | [] => throw .routeSyntaxError
-          | c :: r1' =>
-            if c == dclose then
-              pure (if bottle then none else some name, filter0, r1)
-            else if c == '.' then
-              match pyName r1' with
-              | some (f, r2) => pure (some name, some f, r2)
-              | none => throw .routeSyntaxError
-            else if c == ':' then
-              if bottle then pure (none, filter0, r1)
-              else
-                match pyName r1' with
-                | some (f, r2) => pure (some name, some f, r2)
-                | none => throw .routeSyntaxError
-            else if c == '(' then pure (none, some name, r1)
-            else throw .routeSyntaxError : Except Err (Option Str × Option Str × Str))
-        match filter with
-        | none =>
-          let r3 ← expectClose dclose r2
-          pure ({ param := param }, r3)
-        | some f =>
-          let (args, sel, r3) ← parseFilterTail dclose r2
-          let r4 ← expectClose dclose r3
-          pure ({ param := param, filter := some f, args := args, sel := sel }, r4)
+        if r'.isEmpty || r' == ['\n'] || r'.head? == some '/' then .ok ({ param := some nm }, r')
+        else .error .routeSyntaxError
+      | none => .error .routeSyntaxError
+    else
+      match closeOf first with
+      | none => .error .assertionError
+      | some dclose =>
+        let bottle := r.head? == some ':'
+        match pyName (if bottle then r.drop 1 else r) with
+        | none => .error .routeSyntaxError
+        | some (name, r1) =>
+          match parseAfterName dclose bottle name r1 with
+          | .error e => .error e
+          | .ok (param, filter, r2) => parseClose dclose param filter r2
 
 /-- `Parser._iter_parse` as the list of items produced before the generator stops or raises -/
 def iterParse (fuel : Nat) (s : Str) : List Part × Option Err :=
@@ -726,7 +730,7 @@ inductive Resolved
   | notFound (vals : List Val) (hooks : List (Nat × HookPair)) (partialRoute : Str)
   | notAllowed (allow : Str)
   | fault            -- tree data without a route object (never reached from `add`)
-  deriving Repr
+  deriving DecidableEq, Repr
 
 /-- `RadiRouter.resolve(path, methods)` with a non-empty `methods` -/
 def Router.resolve (env : FilterEnv) (R : Router) (path : Str) (methods : List Str) : Resolved :=
